@@ -121,6 +121,19 @@ CHECKS = {
         "weight lies in the directory-snapshot correspondence. Multi-command OVERWRITE chains are checked one command at a time.",
    technique="Coq proof (loop invariant over the match list; finite-map file system) + directory snapshot differential",
    ref="DESIGN.md 7 C06"),
+ "C15": dict(
+   text="Theorems (closed): C15_one_token_per_element - for EVERY sequence of lexical elements (punctuation, words, numbers, string literals in any documented spelling, regex literals, maximal blank "
+        "runs, line comments, block comments) satisfying only the no-glue conditions (a word not directly followed by a letter/digit, `=` `<` `>` not by `=`, `-` not by `-`, a line comment ended by a "
+        "newline or the end of input) the lexer yields exactly one token per element, then EOF; C15_layout_invariance - two layouts of the same tokens, ANY separators between ANY two tokens or none "
+        "where they do not glue, give the same parse_source result (accept/reject and tree); C15_keyword_spelling_irrelevant - the parser reads a lexeme only after checking the token is an identifier, "
+        "number, string or regex literal (parse ts = parse ts' whenever types agree and those lexemes agree); C15_layout_and_case_invariance - both together through lexer, parser and generator (same "
+        "bytecode). Tie: corpus + generated programs x every gap x 9 separators (inserted and replacing) x compaction x keyword case variants on the implementation: accept/reject, printed tree and Run "
+        "results equal the original's; every variant's tokens and tree compared with the model.",
+   note="The theorem quantifies over element sequences; that every accepted source IS such a sequence (its own tokens and separators) is not proved (the converse direction), it is exercised by the "
+        "correspondence. `---` is a comment by maximal munch (like `ab` is one word): a comment directly after a `-` token needs a blank; the check inserts one there. Repaired by earlier fix commits: "
+        "comments inside transform expressions, blank before a comma in an `in` list, `( )` (parse() now drops WS/COMMENT tokens once).",
+   technique="Coq proof (per-element lexer lemmas composed by induction over the element stream; relational erasure argument through the whole parser) + metamorphic differential on the implementation",
+   ref="DESIGN.md 7 C15"),
  "C16": dict(
    text="Theorems (closed): C16_string_literal_denotes - for EVERY sequence of pieces (raw character, \\n \\t \\r \\a \\b \\f \\v, \\xHH, backslash before any other character, \\x not followed by two hex "
         "digits) spelling an ASCII string, in either quote style, at any place of any source, the lexer yields ONE STRING token whose lexeme is exactly the denoted bytes and resumes right after the "
